@@ -84,7 +84,8 @@ Record C03_spec (s : state) : Prop := {
 (** ** C04 — apply/start run exactly the requested invocations (per request [m]) *)
 Definition is_apply_kind (y : mtask) : bool := negb (is_map y).
 
-Definition expected_created (y : mtask) : nat := if m_bad y then 0 else m_num y.
+(** one task per invocation index below [num] whose call does not raise *)
+Definition expected_created (y : mtask) : nat := ngood (m_bad y) (m_num y).
 
 Record C04_spec (s : state) : Prop := {
   c04_at_most : forall m y, get_m s m = Some y -> is_apply_kind y = true ->
